@@ -14,7 +14,7 @@ import Cosi.Model.Store
 namespace Cosi.Ctrl
 
 structure Cfg where
-  kind : String          -- qtransform | transform | cleanup | destroy
+  kind : String          -- qtransform | qtransform-ignore | transform | cleanup | cleanup-combine | destroy
   name : String := "CTL"
 deriving Repr, Inhabited
 
@@ -24,6 +24,9 @@ def outKey (id : String) : Key := ("n1", "COut", id)
 def mapsOutputs (c : Cfg) : Bool := c.kind == "qtransform" || c.kind == "transform" || c.kind == "qtransform-ignore"
 
 def destroyName : String := "Destroy[CIn]"
+
+/-- cleanup controllers: one RemoveOutputs handler, or Combine(HasNoOutputs[COut2], RemoveOutputs[COut]) -/
+def isCleanup (c : Cfg) : Bool := c.kind == "cleanup" || c.kind == "cleanup-combine"
 
 /-- C07 fin_before_output / fin_until_output_gone: an output owned by the controller
     exists only while its input exists and carries the controller's finalizer -/
@@ -36,7 +39,7 @@ def finGuardsOutput (c : Cfg) (s : Store) : Bool :=
 
 /-- dependent outputs of a cleanup input -/
 def dependents (s : Store) (id : String) : List Res :=
-  (s.filter fun p => p.2.typ == "COut" && p.2.labels.lookup "parent" == some id).map (·.2)
+  (s.filter fun p => (p.2.typ == "COut" || p.2.typ == "COut2") && p.2.labels.lookup "parent" == some id).map (·.2)
 
 /-- the monitors of one logged write: `before`/`after` are the stores around it -/
 def violations (c : Cfg) (actor : String) (op : Op) (ok : Bool) (before after : Store) : List String :=
@@ -51,7 +54,7 @@ def violations (c : Cfg) (actor : String) (op : Op) (ok : Bool) (before after : 
     | _ => []
   let v3 := match op with
     | .update r _ _ =>
-      if ok && actor == "ctrl" && c.kind == "cleanup" && r.typ == "CIn" then
+      if ok && actor == "ctrl" && isCleanup c && r.typ == "CIn" then
         match before.get (inKey r.id) with
         | some b =>
           if b.fins.contains c.name && !r.fins.contains c.name && !(dependents after r.id).isEmpty
@@ -65,7 +68,7 @@ def violations (c : Cfg) (actor : String) (op : Op) (ok : Bool) (before after : 
         (if mapsOutputs c && (match after.get (outKey id) with
             | some o => o.owner == c.name
             | none => false) then ["input_outlives_output"] else []) ++
-        (if c.kind == "cleanup" && (match before.get (inKey id) with
+        (if isCleanup c && (match before.get (inKey id) with
             | some b => b.fins.contains c.name
             | none => false) then ["input_outlives_output"] else [])
       else []
@@ -101,14 +104,13 @@ def specViolations (c : Cfg) (s : Store) (ids : List String) : List String :=
   else if c.kind == "destroy" then
     (s.filter fun p => p.2.typ == "CIn" && p.2.phase == .tearingDown && p.2.owner == "" && p.2.fins.isEmpty).map
       fun p => s!"not_destroyed({p.2.id})"
-  else if c.kind == "cleanup" then
-    ids.flatMap fun id =>
-      match s.get (inKey id) with
-      | some i =>
-        if i.phase == .running then (if i.fins.contains c.name then [] else [s!"finalizer_missing({id})"])
-        else if i.fins.contains c.name && (dependents s id).isEmpty then [s!"finalizer_not_released({id})"]
-        else []
-      | none => []
-  else []
+  else
+    -- cleanup controllers: C06 speaks of Transform/QTransform only and C07 is a safety property, so nothing is
+    -- demanded of a cleanup controller at quiescence. (A liveness expectation "a torn-down input without
+    -- dependents loses the controller's finalizer" was checked here at first; it fails on the unchanged tree when
+    -- a dependent is destroyed by its owner between RemoveOutputs' List and its Teardown — NotFound is counted as
+    -- "still tearing down" and the Destroyed event of a running resource does not pass the destroy-ready filter —
+    -- which is outside the given properties: DESIGN.md §5, observation O1.)
+    []
 
 end Cosi.Ctrl
